@@ -209,7 +209,8 @@ def alias_cases(rng, n):
 def cases(rng, tier):
     n = 250 if tier == "quick" else 3000
     return S.gen_cases(rng, tier, n, immutable=True) + S.gen_cases(rng, tier, n // 2, immutable=None) \
-        + alias_cases(rng, 25 if tier == "quick" else 400) + immfield_cases() + undefined_cases() + DI.cases()
+        + alias_cases(rng, 25 if tier == "quick" else 400) + immfield_cases() + undefined_cases() + DI.cases() \
+        + S.gen_cases_ext(rng, tier, n // 3, immutable=True) + S.gen_cases_ext(rng, tier, n // 3, immutable=None)
 
 
 def search_cases(rng, tier):
@@ -386,7 +387,7 @@ def judge(case, impl, model):
         if cls.get("immutable"):
             if before != after:
                 fails.append((f"immutable-changed:{site}", f"{json.dumps(op)[:200]} changed an ImmutableStructure: {json.dumps(after)[:300]}"))
-            elif st["out"] == "ok" and op["op"] != "callNested":
+            elif st["out"] == "ok" and op["op"] not in ("callNested", "take"):
                 fails.append((f"immutable-no-raise:{site}", f"{json.dumps(op)[:200]} did not raise on an ImmutableStructure"))
         else:
             b = dict(before["o"][1])
